@@ -105,7 +105,10 @@ def impl_write(impl, tag, block, v):
             raise pystruct.error("width")
     except Exception:  # noqa
         return f"{w1} {w2} apply-err:E_STRUCT", None
-    impl.s.replace_status_block_segment(pos, data)
+    try:
+        impl.s.replace_status_block_segment(pos, data)
+    except Exception as e:  # noqa - an exception of the implementation (change notification reads every intersecting item) is an observation
+        return f"{w1} {w2} apply-raised:{type(e).__name__}", None
     nb = impl.s.status_block
     ch = ",".join(f"{i}={nb[i]:02x}" for i in range(min(len(block), len(nb))) if nb[i] != block[i]) or "none"
     return f"{w1} {w2} applied {ch} " + impl_decode(impl.acc[tag], None), nb
@@ -244,7 +247,10 @@ def run(ctx):
                     (it["kind"] == "word" and int(v) < 65536) or (it["kind"] == "time" and v.count(":") == 1 and all(int(x) < 256 for x in v.split(":")))
                 if in_domain:
                     impl.s.set_status_block(nb)
-                    got = impl.acc[tag].value
+                    try:
+                        got = impl.acc[tag].value
+                    except Exception as e:  # noqa
+                        got = f"raised {type(e).__name__}"
                     if it["kind"] == "enum":
                         want = v
                     elif it["kind"] == "bool":
